@@ -375,6 +375,38 @@ static void do_op(void)
     h_out("%s %s", h_status(st), h_dbits(avg));
     esl_msa_Destroy(msa);
   }
+  else if (!strcmp(op, "jcmx")) {      /* esl_dst_{C,X}JukesCantorMx: both matrices, or the status of the first failing pair */
+    ESL_MSA *msa = build_msa(); ESL_DMATRIX *D = NULL, *V = NULL; int st, i;
+    int K = (g_mode == 0) ? (int) h_argi("k", 4) : g_abc->K;
+    if (!msa || K < 2) { esl_msa_Destroy(msa); h_out("bad-op"); return; }
+    st = (g_mode == 0) ? esl_dst_CJukesCantorMx(K, msa->aseq, msa->nseq, &D, &V) : esl_dst_XJukesCantorMx(g_abc, msa->ax, msa->nseq, &D, &V);
+    if (st != eslOK) h_out("%s%s", h_status(st), (D || V) ? " matrices-not-null" : "");
+    else if (!D || !V) h_out("ok-but-null");
+    else {
+      o_reset(); o_add("ok d=");
+      for (i = 0; i < msa->nseq; i++) { if (i) o_add(","); o_dlist(D->mx[i], msa->nseq); }
+      o_add(" v=");
+      for (i = 0; i < msa->nseq; i++) { if (i) o_add(","); o_dlist(V->mx[i], msa->nseq); }
+      h_out("%s", ob);
+    }
+    esl_dmatrix_Destroy(D); esl_dmatrix_Destroy(V); esl_msa_Destroy(msa);
+  }
+  else if (!strcmp(op, "avgconn") || !strcmp(op, "avgsub")) {   /* esl_dst_XAvgConnectivity / esl_dst_XAvgSubsetConnectivity */
+    ESL_MSA *msa = build_msa(); int st, maxc = (int) h_argi("max", 0); double avgid = -1., avgconn = -1.;
+    if (!msa || maxc < 1 || g_mode == 0) { esl_msa_Destroy(msa); h_out("bad-op"); return; }
+    if (!strcmp(op, "avgconn")) st = esl_dst_XAvgConnectivity(g_abc, msa->ax, msa->nseq, maxc, h_argbits("th"), &avgid, &avgconn);
+    else {
+      const char *v = h_arg("v"), *p; int nV = 0, *V, bad = 0;
+      if (!v) { esl_msa_Destroy(msa); h_out("bad-op"); return; }
+      V = malloc(sizeof(int) * (strlen(v) + 1));
+      if (strcmp(v, "-")) for (p = v; p && *p; ) { V[nV] = atoi(p); if (V[nV] < 0 || V[nV] >= msa->nseq) bad = 1; nV++; p = strchr(p, ','); if (p) p++; }
+      if (bad) { free(V); esl_msa_Destroy(msa); h_out("bad-op"); return; }
+      st = esl_dst_XAvgSubsetConnectivity(g_abc, msa->ax, msa->nseq, V, nV, maxc, h_argbits("th"), &avgid, &avgconn);
+      free(V);
+    }
+    o_reset(); o_add("%s %s", h_status(st), h_dbits(avgid)); o_add(" %s", h_dbits(avgconn)); h_out("%s", ob);
+    esl_msa_Destroy(msa);
+  }
   else if (!strcmp(op, "upgma")) {   /* esl_tree_UPGMA on an explicit symmetric matrix (upper triangle given row-major) */
     int n = (int) h_argi("n", 0), i, j, st, valid; const char *dl = h_arg("d"), *p; ESL_DMATRIX *D; ESL_TREE *T = NULL;
     int cnt = 0; char errbuf[eslERRBUFSIZE];
@@ -391,12 +423,18 @@ static void do_op(void)
         p = strchr(p, ','); if (p) p++;
       }
     }
-    st = esl_tree_UPGMA(D, &T);
+    switch ((int) h_argi("link", 0)) {   /* every mode of cluster_engine */
+    case 0:  st = esl_tree_UPGMA(D, &T);           break;
+    case 1:  st = esl_tree_WPGMA(D, &T);           break;
+    case 2:  st = esl_tree_SingleLinkage(D, &T);   break;
+    case 3:  st = esl_tree_CompleteLinkage(D, &T); break;
+    default: esl_dmatrix_Destroy(D); h_out("bad-op"); return;
+    }
     if (st != eslOK || !T) h_out("%s", h_status(st));
     else {
       esl_tree_SetTaxaParents(T); esl_tree_SetCladesizes(T);
       valid = (esl_tree_Validate(T, errbuf) == eslOK);
-      o_reset(); o_add("ok valid=%d left=", valid); o_ilist(T->left, n - 1);
+      o_reset(); o_add("ok valid=%d N=%d lt=%d left=", valid, T->N, T->is_linkage_tree ? 1 : 0); o_ilist(T->left, n - 1);
       o_add(" right=");  o_ilist(T->right, n - 1);
       o_add(" parent="); o_ilist(T->parent, n - 1);
       o_add(" ld="); o_dlist(T->ld, n - 1);
